@@ -16,7 +16,7 @@ RULE = ("real Router with recording devices (one of them a real generated Driver
         "distinct = hash(model state [and path, when reached by a non-shortest path], operation)")
 ASSUMPTIONS = ["which clients the getProperties relay reaches is decided by C05",
                "enableBLOB from an unregistered sender is outside the quantifier"]
-REQUIRED_EVENTS = ["states", "transitions", "client_originated_messages", "deliveries_observed"]
+REQUIRED_EVENTS = ["states", "transitions", "device_originated_messages", "deliveries_observed", "library_client_handshake_scenarios"]
 EXHAUSTIVE_NOTE = "quick: universe 2 devices (A, real driver B) + catch-all x 2 clients, complete; thorough: 3 devices x 3 clients, complete"
 JUDGE = "device"
 
@@ -27,7 +27,52 @@ def universes(ctx):
     return X.Universe(["A", "B", "*"], ["c0", "c1"])
 
 
+async def _handshake_scenario(ctx, k):
+    """The policies as the library's own clients announce them (BaseClient.blob_handshake: Never; Client.blob_handshake:
+    Never on the control connection + Only on the BLOB connection), observed on the wire."""
+    from indi.device import values
+    from indi.routing import Router
+    from vf import stack
+    from vf.gen import drivers as D
+    from vf.props.C08 import make_spec
+    from vf.ref import xmlsplit
+    from vf.ref.view import view_xml
+    router = Router()
+    drv = D.build(make_spec())(router=router)
+    other = D.build(dict(make_spec(), name="CAM2"))(router=router)
+    sess = stack.Session(router, seed=k, mode_c2s=["whole", "1", "random"][k % 3], mode_s2c=["whole", "1024", "small"][k % 3])
+    client = await sess.make_client()
+    snoop = other.snoop_device("CAM")            # an in-process BaseClient: announces Never
+    await sess.quiesce()
+    marks = [len(l.s_writer.data) for l in client._vf_links]
+    nsn = len(stack.client_view(snoop).get("CAM", {}))
+    D.element_of(drv, "g", "t", "e0").value = f"text{k}"
+    D.element_of(drv, "g", "b", "e0").value = values.BLOB(b"blob%d" % k, ".b")
+    await sess.quiesce()
+    ctx.count("library_client_handshake_scenarios")
+    case = {"mode": "handshake", "k": k}
+    kinds = []
+    for l, m in zip(client._vf_links, marks):
+        els, rest = xmlsplit.split(l.s_writer.data[m:])
+        kinds.append([view_xml(e)[0] for e in els])
+    if "setBLOBVector" in kinds[0] or "setTextVector" not in kinds[0]:
+        ctx.violate("control-connection-policy-not-never", f"control connection (announced Never) received {kinds[0]}", case)
+    if "setBLOBVector" not in kinds[1] or "setTextVector" in kinds[1]:
+        ctx.violate("blob-connection-policy-not-only", f"BLOB connection (announced Only) received {kinds[1]}", case)
+    sv = stack.client_view(snoop).get("CAM", {})
+    if sv.get("TXT", {}).get("elements", {}).get("TXT_E0", (None, None))[1] != f"text{k}":
+        ctx.violate("snooping-client-misses-non-blob-update", f"snooping client shows {sv.get('TXT')}", case)
+    if sv.get("IMG", {}).get("elements", {}).get("IMG_E0", (None, None))[1] is not None:
+        ctx.violate("snooping-client-received-blob-despite-never", "a snooping client (Never) holds a BLOB payload", case)
+    ctx.case(("handshake", k), nontrivial=True, sample={"scenario": "library clients announce their policies", "control": kinds[0], "blob": kinds[1]})
+    await sess.close()
+
+
 def run(ctx):
+    import asyncio
+    for k in range(6 if not ctx.thorough else 60):
+        if ctx.mine(k):
+            asyncio.run(_handshake_scenario(ctx, k))
     uni = universes(ctx)
     ex = X.Explorer(ctx, uni, JUDGE, {"mode": "bfs", "uni": [uni.devices, uni.clients]})
     n = ex.bfs(shard=(ctx.mine if ctx.nshards > 1 else None))
